@@ -99,17 +99,20 @@ class Check(PropertyCheck):
                 del sim.log[:]
             ni, node = self._netinfo(c)
             import zigpy.types as zt0
-            eui_before = bytes(sim.eui64.serialize())
+            factory = bytes(sim.factory_eui64.serialize())
             supplied_tc = None if ni.tc_link_key.partner_ieee == zt0.EUI64.UNKNOWN else bytes(ni.tc_link_key.partner_ieee.serialize()).hex()
             supplied_ieee = None if node.ieee == zt0.EUI64.UNKNOWN else bytes(node.ieee.serialize())
             await app.write_network_info(network_info=ni, node_info=node)
-            # what the property calls "the fields supplied", stated from the INPUT (the library updates the object it was
-            # given): when the adapter's own address could not be replaced by the supplied one, key entries are bound
-            # to the adapter's address, which then also stands for the trust centre; otherwise the supplied address counts
-            wrote_eui64 = bytes(sim.eui64.serialize()) != eui_before
-            if wrote_eui64 and supplied_ieee is not None and bytes(sim.eui64.serialize()) != supplied_ieee:
-                out["eui64_written_wrong"] = True
-            out["supplied_tc_effective"] = supplied_tc if wrote_eui64 else eui_before.hex()
+            # what the property calls "the fields supplied", stated from the INPUT (the library updates the objects it was
+            # given).  Restoring first clears the adapter's custom address (it then answers to its factory address); the
+            # supplied node address is written when it is known, differs from that and the adapter has the rewritable
+            # token.  If it is written, the supplied trust-centre address counts; otherwise key entries are bound to the
+            # adapter's own address, which then also stands for the trust centre.
+            rewritable = bool(c["nv3"]) and "getTokenData" in ez._protocol.COMMANDS      # token commands exist from EZSP v9
+            must_write = supplied_ieee is not None and supplied_ieee != factory and rewritable
+            out["eui64_expected"] = (supplied_ieee if must_write else factory).hex()
+            out["eui64_final"] = bytes(sim.eui64.serialize()).hex()
+            out["supplied_tc_effective"] = supplied_tc if must_write else factory.hex()
             sec = [a["state"] for n, *rest in [(x[0], x[1]) if len(x) > 1 else (x[0],) for x in sim.log]
                    for a in rest if n == "setInitialSecurityState"]
             s = sec[-1]
@@ -128,6 +131,7 @@ class Check(PropertyCheck):
             r = app.state.network_info
             hashed = r.stack_specific.get("ezsp", {}).get("hashed_tclk")
             out["read"] = {
+                "node_ieee": bytes(app.state.node_info.ieee.serialize()).hex(),
                 "pan": int(r.pan_id), "epan": bytes(r.extended_pan_id.serialize()).hex(), "channel": int(r.channel),
                 "mask": int(r.channel_mask), "update_id": int(r.nwk_update_id),
                 "nwk_key": bytes(r.network_key.key.serialize()).hex(), "nwk_seq": int(r.network_key.seq),
@@ -210,8 +214,11 @@ class Check(PropertyCheck):
         if s["nwk"] != c["nwk_key"] or s["seq"] != c["nwk_seq"]:
             return f"v{v}: security state carries another network key / sequence number"
         tc_flag = bool(s["bitmask"] & 0x40)
-        if obs.get("eui64_written_wrong"):
-            return f"v{v}: the adapter's address was rewritten to something other than the supplied node address"
+        if obs.get("eui64_final") != obs.get("eui64_expected"):
+            return (f"v{v}: after the restore the adapter answers to {obs.get('eui64_final')}, the input determines "
+                    f"{obs.get('eui64_expected')} (rewritable token: {c['nv3']}, prior network: {bool(c.get('prior'))})")
+        if obs["read"].get("node_ieee") != obs.get("eui64_expected"):
+            return f"v{v}: node address read back {obs['read'].get('node_ieee')}, the input determines {obs.get('eui64_expected')}"
         if obs["effective_tc"] != obs["supplied_tc_effective"]:
             return (f"v{v}: trust-centre address sent to the NCP / left in the network information is {obs['effective_tc']}, "
                     f"the input determines {obs['supplied_tc_effective']}")
